@@ -278,8 +278,35 @@ def check(ctx):
                         txt = f.describe_origin(o, deep=3)
                         if re.search(r"\b(Add|Sub)", txt):
                             counted = True
+            # structural descent: `while let Optional(inner) = cur { cur = inner }` — the loop variable is replaced by a part of the value it
+            # pointed to (a finite tree)
+            descends = False
+            assigns_ = []
+            for b in body:
+                for st in f.blocks[b]["stmts"]:
+                    rv = st.get("rv") or {}
+                    lhs = st.get("lhs")
+                    if not lhs or lhs.get("p"):
+                        continue
+                    src = rv.get("place") if rv.get("k") == "ref" else ((rv.get("op") or {}).get("copy") or (rv.get("op") or {}).get("move") if rv.get("k") in ("use", "cast") and isinstance(rv.get("op"), dict) else None)
+                    if isinstance(src, dict):
+                        assigns_.append((lhs["l"], src))
+            for (L_, _src) in assigns_:
+                part = {l2 for (l2, s2) in assigns_ if s2.get("l") == L_ and any(pj.get("k") == "field" for pj in s2.get("p", []))}
+                grew = True
+                while grew:
+                    grew = False
+                    for (l2, s2) in assigns_:
+                        if s2.get("l") in part and l2 not in part:
+                            part.add(l2)
+                            grew = True
+                if L_ in part:
+                    descends = True
+                    break
             if counted:
                 r4.ok("%s: counting loop" % key)
+            elif descends:
+                r4.ok("%s: structural descent (the loop variable is replaced by a part of its own value)" % key)
             elif key in LOOP_REVIEWED:
                 r4.ok("%s: reviewed — %s" % (key, LOOP_REVIEWED[key]))
             else:
